@@ -43,6 +43,10 @@ def run(ctx):
                  "R4": "removed row == [left, number of points in the segment - 2]; rdp() and compute_removed_points() agree as linear forms",
                  "R5": "Distance dispatch total; callees resolve, take 3 positionals, return one distance per input point, never reach numpy.cross (rejects 2-vectors on numpy >= 2)"}.items():
         res.rule(k, v)
+    res.rule("R6", "the simplifiers and the distance / fit helpers they call perform no float-valued store or in-place float operation on an array that inherits "
+                   "the dtype of an argument: an integer-typed curve is simplified like its float copy instead of raising or being truncated")
+    from . import detectors as _d
+    _d.dtype_guard(rc, "R6", ["rdp", "linear_fit"])
     models = {}
     # threshold RDP: once per metric (the accept/reject literal depends on it)
     for mname in METRICS:
